@@ -31,6 +31,26 @@ def patched(*targets, **names):
       d[k] = v
 
 
+class Hermetic:
+  """Restores the contents of every mutable container (dict/list/set) found in the given namespaces when the block ends,
+  so that module-level caches cannot leak values (or proxies) from one explored path / replay into the next."""
+  def __init__(self, *namespaces):
+    self.ns = [n if isinstance(n, dict) else vars(n) for n in namespaces]
+  def __enter__(self):
+    self.saved = []
+    for d in self.ns:
+      for k, v in list(d.items()):
+        if type(v) in (dict, list, set):
+          self.saved.append((v, type(v)(v)))
+    return self
+  def __exit__(self, *a):
+    for v, old in self.saved:
+      if isinstance(v, list): v[:] = old
+      else:
+        v.clear(); v.update(old)
+    return False
+
+
 def isinf(x):
   if isinstance(x, (Sym, SymInt)): return False
   return math.isinf(x)
